@@ -3,10 +3,12 @@ import collections
 import json
 import os
 import random
+import re
 import shutil
 from concurrent.futures import ProcessPoolExecutor
 
 import cli_common as cc
+import hostile
 import isogen
 import isomut
 import runner
@@ -18,7 +20,10 @@ RULE = ("seeded histories with the real isograph_cli on one project directory: a
         "project, holding foreign files); then an invalid P' is compiled over the same directory. P' = P after 0-2 "
         "meaning-preserving or layout edits that WOULD change artifacts (extract / inline a client field, duplicate a "
         "selection, relayout) plus one fault: a single-fault validation mutant (pylib/isomut.py), a syntax error in one "
-        "literal, a broken or missing schema, an entrypoint of an undefined field, a duplicate declaration. Snapshot "
+        "literal, a broken or missing schema, an entrypoint of an undefined field, a duplicate declaration; and a second "
+        "workload where P is the hand-written base project of pylib/hostile.py (schema extension with @exposeField, "
+        "pointers, loadable fields) and P' one of its ~26 hostile shapes, i.e. every kind of diagnostic the compiler "
+        "produces (schema / extension / @exposeField / entrypoint / directive / pointer / variable / argument oddities). Snapshot "
         "of every FILE below the artifact directory (path, bytes, mtime in ns, inode) before and after must be identical "
         "when the compile reported an error (exit != 0); changes to directories alone (an empty __isograph created by a "
         "failed first compile) are recorded, not judged - the statement is about artifact files. Non-trivial: the failing "
@@ -194,6 +199,81 @@ def _case(spec):
         shutil.rmtree(root, ignore_errors=True)
 
 
+def _hostile_case(spec):
+    """P = the hand-written base project of pylib/hostile.py (schema + extension with @exposeField, pointers, loadable
+    fields...), compiled successfully; P' = one of the hostile shapes (every kind of diagnostic the compiler can produce:
+    schema / extension / @exposeField / entrypoint / directive / pointer / variable oddities...) written over it."""
+    out = {"violations": [], "stats": collections.Counter(), "nontrivial": False, "distinct": None, "sample": None, "error": None}
+    root = spec["root"]
+    try:
+        rng = random.Random(subseed(spec["seed"], "c17h"))
+        shape = [f for f in hostile.SHAPES if f.__name__ == spec["shape"]][0]
+        files = shape(rng)
+        cfg1 = json.loads(files["isograph.config.json"])
+        base = hostile.base(bool(cfg1.get("schema_extensions")))
+        cfg0 = json.loads(base["isograph.config.json"])
+        if cc.artifact_dir_of("/x", cfg0) != cc.artifact_dir_of("/x", cfg1) or cfg0["project_root"] != cfg1["project_root"]:
+            out["stats"]["shape_changes_artifact_location(skipped)"] += 1
+            return out
+        shutil.rmtree(root, ignore_errors=True)
+        hostile.write_files(base, root)
+        r0 = cc.run_cli_timed(spec["cli"], root)
+        if not r0.ok():
+            out["stats"]["base_compile_failed"] += 1
+            return out
+        adir = cc.artifact_dir_of(root)
+        # replace sources / schema / extension / config, never the artifact directory
+        for rel in list(base):
+            pth = os.path.join(root, rel)
+            if os.path.exists(pth):
+                os.remove(pth)
+        hostile.write_files(files, root)
+        before = snapshot(adir)
+        r1 = cc.run_cli_timed(spec["cli"], root)
+        after = snapshot(adir)
+        cid = f"hostile:{spec['shape']}:{spec['seed']}"
+        out["stats"]["failing_compiles_run" if not r1.ok() else "hostile_shape_accepted(not a failing compile)"] += 1
+        if r1.timed_out:
+            out["error"] = "watchdog"
+            return out
+        if r1.ok():
+            return out
+        out["stats"]["fault:hostile-shape"] += 1
+        if r1.panicked() or r1.signal:
+            out["stats"]["crashed(see C08)"] += 1
+        before = {k: v for k, v in before.items() if not (k.endswith("/") or k == "<absent>")}
+        after = {k: v for k, v in after.items() if not (k.endswith("/") or k == "<absent>")}
+        msg = cc.ANSI.sub("", r1.stderr)
+        m = re.search(r"Error when compiling\.\s*\n\s*\n(.*)", msg)
+        first = (m.group(1) if m else msg.strip().split("\n")[-1])[:120]
+        if before != after:
+            created = sorted(k for k in after if k not in before)
+            deleted = sorted(k for k in before if k not in after)
+            modified = sorted(k for k in after if k in before and before[k] != after[k])
+            kind = "created" if created else ("deleted" if deleted else "modified")
+            out["violations"].append({
+                "rule": "artifact-directory-touched", "signature": f"C17/failed-compile-{kind}-artifacts/hostile:{spec['shape']}",
+                "what": f"{cid}: failed compile (exit {r1.rc}: {first}) created {created[:3]} deleted {deleted[:3]} modified {modified[:3]}",
+                "witness": {"case": cid, "replay": {"generator": "pylib/props/c17.py:_hostile_case", "shape": spec["shape"], "seed": spec["seed"]},
+                            "created": created[:20], "deleted": deleted[:20], "modified": modified[:20], "stderr": msg[-800:],
+                            "files": {k: v for k, v in files.items() if len(v) < 4000}}})
+        out["nontrivial"] = len(before) >= 1
+        out["distinct"] = f"hostile|{spec['shape']}|{first[:60]}"
+        out["sample"] = {"case": cid, "initial_state": "previous-compile of the base project", "fault": "hostile shape " + spec["shape"],
+                         "entries_in_directory": len(before), "compiler_said": first}
+        return out
+    except runner.Inconclusive as e:
+        out["error"] = str(e)
+        return out
+    finally:
+        out["stats"] = dict(out["stats"])
+        shutil.rmtree(root, ignore_errors=True)
+
+
+def _dispatch(spec):
+    return _hostile_case(spec) if spec.get("shape") else _case(spec)
+
+
 INITS = ["previous-compile", "previous-compile", "stale-other-project", "foreign-files", "empty", "absent-no-first-compile"]
 
 
@@ -207,8 +287,15 @@ def run(ctx):
         seed = subseed(ctx.seed, "c17", prof, i) % (1 << 48)
         specs.append({"seed": seed, "profile": prof, "init": INITS[i % len(INITS)], "fault": faults[(i // 2) % len(faults)],
                       "cli": cli, "root": os.path.join(ctx.work, f"c17-{i}")})
+    light = [f.__name__ for f in hostile.SHAPES if f.__name__ not in hostile.HEAVY and f.__name__ != "s_valid_base"]
+    # shapes whose ONLY error is a schema-level one (each diagnostic class on its own) get more repetitions
+    schema_only = ["s_expose_field_only", "s_schema_dangling", "s_schema_odd_kinds", "s_duplicate_schema_things", "s_schema_definition_block"]
+    for j in range(ctx.pick(4, 150)):
+        for name in light + schema_only * 3:
+            specs.append({"shape": name, "seed": subseed(ctx.seed, "c17h", name, j) % (1 << 48), "cli": cli,
+                          "root": os.path.join(ctx.work, f"c17h-{name}-{j}-{len(specs)}")})
     with ProcessPoolExecutor(max_workers=runner.NCPU) as ex:
-        results = list(ex.map(_case, specs, chunksize=1))
+        results = list(ex.map(_dispatch, specs, chunksize=1))
     errs = [r["error"] for r in results if r.get("error")]
     if len(errs) > max(2, len(results) // 20):
         raise runner.Inconclusive(f"{len(errs)} cases inconclusive, e.g. {errs[0]}")
